@@ -2,6 +2,11 @@ module google.golang.org/protobuf/verif
 
 go 1.23
 
-require google.golang.org/protobuf v0.0.0
+require (
+	github.com/anishathalye/porcupine v1.3.0
+	github.com/golang/protobuf v1.5.0
+	github.com/google/go-cmp v0.7.0
+	google.golang.org/protobuf v0.0.0
+)
 
 replace google.golang.org/protobuf => /repo
